@@ -135,4 +135,39 @@ def boundary (w : Rat) (spec : Spec) (hasTime : Bool) (uval : List Rat → List 
 def productRows (ts : List Rat) (dx : Border) : Border :=
   ts.flatMap fun t => dx.map fun row => List.replicate (nFacets dx) t :: row
 
+/-! ### separable networks (SPINN branches)
+
+A `SPINN` is not evaluated row by row: given the `B` rows of `border_batch[..., facet]` (resp. the time
+column and the space columns of `times_x_border_batch[..., facet]`) it returns its values on the whole
+tensor grid of the coordinate columns — `B^D` entries, `D` the number of coordinates — and the
+boundary function is applied to `_get_grid(…)`, the same grid (`meshgrid(indexing="ij")`).  The term
+is the mean over the grid.  On a facet one coordinate column is constant (the pinned coordinate), so
+the grid is that constant × the product of the free columns: in the stationary 2-D case exactly the
+facet's own points (each `B` times), in the non-stationary case the times of the batch × the facet's
+points (`JinnsProofs/C04.lean`: `cart_mean_const_col`, `grid_mean_eq_rows_*`). -/
+
+/-- cartesian product of coordinate columns, first coordinate varying slowest -/
+def cart : List (List Rat) → List (List Rat)
+  | [] => [[]]
+  | col :: rest => col.flatMap fun a => (cart rest).map fun p => a :: p
+
+/-- the `nc` coordinate columns of a list of points -/
+def columns (nc : Nat) (pts : List (List Rat)) : List (List Rat) :=
+  (List.range nc).map fun j => pts.map fun p => p.getD j 0
+
+/-- `_get_grid` of the facet's rows: every combination of one entry per coordinate column -/
+def gridPts (nc : Nat) (pts : List (List Rat)) : List (List Rat) := cart (columns nc pts)
+
+/-- SPINN branches of `boundary_dirichlet_*` / `boundary_neumann_*` followed by
+    `jnp.mean(loss_weight * …)`: same per-point mismatch (`u(grid)[..., dim] - f(grid)`, resp. the
+    `jvp`s along the space axes combined with `n[·, facet]`), evaluated on the grid. -/
+def facetLossSpinn (w : Rat) (s : FacetSpec) (hasTime : Bool) (uval : List Rat → List Rat)
+    (jac : List Rat → List (List Rat)) (b : Border) (facet : Nat) : Rat :=
+  mean ((gridPts (nCoords b) (facetPts b facet)).map fun p =>
+    w * ((mismatch s (normal (spaceDim hasTime b) facet) uval jac p).map sqr).sum)
+
+def boundarySpinn (w : Rat) (spec : Spec) (hasTime : Bool) (uval : List Rat → List Rat)
+    (jac : List Rat → List (List Rat)) (b : Border) : Rat :=
+  sumFacets (fun s i => facetLossSpinn w s hasTime uval jac b i) (spec.facets b) 0
+
 end Jinns.Boundary
